@@ -76,9 +76,15 @@ def r2(fx):
             ok = at == documented[p]
             want = f'{documented[p]} (documented difference)'
         elif p == 'unit':
-            norm = any(pat.match(s, "unit = unit or ''", mode='stmt') is not None for s in svg.body)
-            ok = at == bt or (at == "''" and bt == 'None' and norm)
-            want = f"{bt} (or '' which write_svg normalises with `unit = unit or ''`)"
+            ok = at == bt
+            if not ok and {at, bt} <= {"''", 'None'}:
+                # '' and None must then mean the same to the serialiser: render it with both
+                from . import p10
+                itr = Interp(max_steps=5_000_000)
+                a1, _ = p10._render(fx, itr, 'write_svg', 2, '#000', None, unit='')
+                a2, _ = p10._render(fx, itr, 'write_svg', 2, '#000', None, unit=None)
+                ok = a1 == a2
+            want = f"{bt} (or a value the SVG serialiser treats like it)"
         else:
             ok = at == bt
             want = bt
